@@ -44,6 +44,17 @@ META["C08"] = m("Scripts run inside a testing/synctest bubble: calls start in th
                 "DESIGN.md §6 C08", "Deterministic only at durable blocking points (channel/WaitGroup); preemption inside non-blocking code is not explored here. Reload panics on the default executor crash the process and are generated only with a harness-owned executor.", "generated schedules in a synctest bubble with gated loaders (rapid)")
 META["C09"] = m("Scripts in a synctest bubble place every kind of explicit write in each window of a load (before registration via the get.afterMiss hook gate, while the loader runs, after it returned via the load.beforeInstall hook gate, after installation) and compare the settled contents with 'the explicit write wins iff it superseded the load'.",
                 "DESIGN.md §6 C09, §7", "Deterministic at blocking-point granularity; the two hook points are the only places inside the cache where the script parks a goroutine (no lock is held there).", "generated write placements around gated loads in a synctest bubble (rapid)")
-NOT_APPLICABLE = {
-    "C14": "check not built yet in this session (planned: hook-point cooperative scheduler over the drain-status protocol, DESIGN.md §6 C14)",
-}
+META["C14"] = m("Hook-point cooperative scheduling: writer/reader threads and the goroutines started by the default executor are parked at every verif hook point of the drain-status protocol, the try-lock hand-off, maintenance, evictions and the write buffer; a generated []int picks which parked thread runs next. Once every thread and every cache-started goroutine has finished, and without any further cache call, the drain status must be idle, the write buffer empty, the size bound restored and every removal notified.",
+                "DESIGN.md §3.2 (S3), §6 C14", "Interleavings are explored at hook-point granularity; a 2 ms watchdog hands control on when a thread blocks on a mutex or spins (this only adds legal concurrency). 'Eventually' is judged as 'the quiescent state has no pending work'. A scheduler hang is inconclusive.", "generated schedules on a hook-point cooperative scheduler (rapid)")
+S3NOTE = " The concurrent variants run the same oracle on the hook-point scheduler (interleavings at hook granularity) and on free-running goroutines (schedules sampled by the Go runtime)."
+for _p in ("C04", "C05", "C06"):
+    META[_p]["note"] = S1NOTE + S3NOTE
+    META[_p]["technique"] += "; same oracle under generated schedules (hook-point scheduler) and free-running stress"
+META["C03"]["note"] = S1NOTE + " The phase variant runs free-running goroutines with the clock moved only at barriers and judges reads against a schedule-independent upper bound of each value's deadline."
+META["C13"]["text"] += " A second test parks a Set inside Clock.NowNano (synctest bubble), moves the clock and runs maintenance before releasing it, so the entry is scheduled behind the timer wheel's time."
+META["C13"]["note"] = S1NOTE
+META["C20"]["note"] = S1NOTE + " A free-running variant compares totals after quiescence (striped counters under contention)."
+META["C08"]["text"] += " A free-running variant releases many callers together on fresh absent keys and rejects any two overlapping loader invocations for one key."
+META["C16"]["text"] += " A third test parks producers and the consumer at the hook points between index CAS and publication and inside resize."
+META["C17"]["text"] += " A third test parks recorders and the consumer at the hook points between tail CAS and slot store and inside the drain."
+NOT_APPLICABLE = {}
